@@ -11,6 +11,7 @@ import (
 	"io"
 	"net"
 	"net/http"
+	"os"
 	"sort"
 	"strconv"
 	"strings"
@@ -32,6 +33,7 @@ type c13DumperCfg struct {
 	async   bool
 	base    int
 	failing bool // every writer of this dumper records the bytes and then reports an error
+	slow    bool // every writer of this dumper takes a millisecond per write (a slow disk / terminal)
 }
 
 func (d *c13DumperCfg) writerIDs() [7]int {
@@ -100,9 +102,13 @@ type c13LogWriter struct {
 	id   int
 	log  *c13Log
 	fail bool
+	slow bool
 }
 
 func (w *c13LogWriter) Write(p []byte) (int, error) {
+	if w.slow {
+		time.Sleep(time.Millisecond)
+	}
 	w.log.mu.Lock()
 	w.log.events = append(w.log.events, c13Event{w.id, string(p)})
 	w.log.mu.Unlock()
@@ -145,7 +151,7 @@ func (d *c13DumperCfg) options(log *c13Log) *DumpOptions {
 		if id == 0 {
 			return nil
 		}
-		return &c13LogWriter{id, log, d.failing}
+		return &c13LogWriter{id, log, d.failing, d.slow}
 	}
 	return &DumpOptions{
 		Output: mk(w[0]), RequestOutput: mk(w[1]), ResponseOutput: mk(w[2]),
@@ -160,6 +166,25 @@ type c13DumpCfg struct {
 	cl, rq  *c13DumperCfg
 	clone   bool // the request is sent from Client.Clone() of the configured client
 	eachReq int  // > 0: request-level dump switched on by Client.EnableDumpEachRequest… (variant number); rq describes the resulting options, written to the request's own buffer (writer 30)
+	// dump to a file: cl.base == 40: Client.EnableDumpAllToFile(clFile); rq.base == 41:
+	// Request.EnableDumpToFile(rqFile); the files are read back as writers 40 / 41
+	clFile, rqFile string
+}
+
+// flat reports whether the writer is read back as one string (Response.Dump(), a dump file).
+func c13FlatWriter(id int) bool { return id == 30 || id == 40 || id == 41 }
+
+// readBack appends what the dump files hold to the log (one event per file).
+func (c c13DumpCfg) readBack(log *c13Log) {
+	for id, f := range map[int]string{40: c.clFile, 41: c.rqFile} {
+		if f == "" {
+			continue
+		}
+		b, _ := os.ReadFile(f)
+		log.mu.Lock()
+		log.events = append(log.events, c13Event{id, string(b)})
+		log.mu.Unlock()
+	}
 }
 
 func (c c13DumpCfg) String() string {
@@ -169,6 +194,12 @@ func (c c13DumpCfg) String() string {
 	}
 	if c.eachReq > 0 {
 		x += fmt.Sprintf(" via-EnableDumpEachRequest#%d", c.eachReq)
+	}
+	if c.clFile != "" {
+		x += " via-EnableDumpAllToFile"
+	}
+	if c.rqFile != "" {
+		x += " via-EnableDumpToFile"
 	}
 	return "client=" + c.cl.String() + " request=" + c.rq.String() + x
 }
@@ -191,7 +222,7 @@ var c13EachReq = []struct {
 
 func c13GenDumper(s *verifh.Session, base int, subset int, async bool) *c13DumperCfg {
 	r := s.Rand()
-	d := &c13DumperCfg{base: base, routing: r.Intn(4), async: async, failing: r.Intn(7) == 0}
+	d := &c13DumperCfg{base: base, routing: r.Intn(4), async: async, failing: r.Intn(7) == 0, slow: r.Intn(9) == 0}
 	for i := 0; i < 4; i++ {
 		d.flags[i] = subset&(1<<i) != 0
 	}
@@ -200,7 +231,9 @@ func c13GenDumper(s *verifh.Session, base int, subset int, async bool) *c13Dumpe
 
 // applyClient configures the client like a user would and returns the client to send from.
 func (c c13DumpCfg) applyClient(cl *Client, log *c13Log, viaSetOptions bool) *Client {
-	if c.cl != nil {
+	if c.cl != nil && c.cl.base == 40 {
+		cl.EnableDumpAllToFile(c.clFile)
+	} else if c.cl != nil {
 		opt := c.cl.options(log)
 		if viaSetOptions {
 			cl.SetCommonDumpOptions(opt)
@@ -219,7 +252,9 @@ func (c c13DumpCfg) applyClient(cl *Client, log *c13Log, viaSetOptions bool) *Cl
 }
 
 func (c c13DumpCfg) applyRequest(rq *Request, log *c13Log) {
-	if c.rq != nil && c.eachReq == 0 {
+	if c.rq != nil && c.rq.base == 41 {
+		rq.EnableDumpToFile(c.rqFile)
+	} else if c.rq != nil && c.eachReq == 0 {
 		rq.SetDumpOptions(c.rq.options(log)).EnableDump()
 	}
 }
@@ -341,6 +376,7 @@ type c13Resp struct {
 	close   bool   // close the connection after writing
 	early   bool   // answer right after the request head, without reading the request body
 	pieces  int    // write raw in this many pieces
+	upgrade bool   // raw is a 101 response: afterwards the connection speaks a line protocol (each line is answered in upper case, "bye" ends it)
 }
 
 type c13Attempt struct {
@@ -360,6 +396,13 @@ type c13Peer struct {
 	conns    []net.Conn
 	connSeq  int
 	busy     int // requests whose head was read and whose capture is not recorded yet
+	lives    map[string]*c13Live // path -> pacing of an interactive exchange (lane live)
+}
+
+func (p *c13Peer) liveFor(path string) *c13Live {
+	p.mu.Lock()
+	defer p.mu.Unlock()
+	return p.lives[path]
 }
 
 // waitIdle waits until every request the peer started to handle has been recorded.
@@ -479,6 +522,7 @@ func (p *c13Peer) serve(c net.Conn) {
 		if !ok {
 			script = c13Resp{raw: "HTTP/1.1 599 no script\r\nContent-Length: 0\r\n\r\n"}
 		}
+		live := p.liveFor(path)
 		att := c13Attempt{head: hs, conn: connID, path: path}
 		fail := func() {
 			p.mu.Lock()
@@ -536,6 +580,9 @@ func (p *c13Peer) serve(c net.Conn) {
 					}
 					wire.Write(buf)
 					payload.Write(buf[:n])
+					if live != nil {
+						live.gotUpload(int(n))
+					}
 				}
 				att.wire, att.payload = wire.String(), payload.String()
 			case cl > 0:
@@ -555,6 +602,37 @@ func (p *c13Peer) serve(c net.Conn) {
 		n := script.pieces
 		if n < 1 {
 			n = 1
+		}
+		if script.upgrade {
+			if _, err := c.Write([]byte(raw)); err != nil {
+				return
+			}
+			for {
+				line, err := br.ReadString('\n')
+				if err != nil {
+					return
+				}
+				if _, err := c.Write([]byte(strings.ToUpper(line))); err != nil || line == "bye\n" {
+					return
+				}
+			}
+		}
+		if live != nil {
+			// interactive download: the head (chunked framing announced), then one chunk per
+			// piece, the next one only after the caller has read the previous one
+			if _, err := c.Write([]byte(raw)); err != nil {
+				return
+			}
+			for j, piece := range live.down {
+				if _, err := fmt.Fprintf(c, "%x\r\n%s\r\n", len(piece), piece); err != nil {
+					return
+				}
+				live.waitRead(j)
+			}
+			if _, err := c.Write([]byte("0\r\n\r\n")); err != nil {
+				return
+			}
+			continue
 		}
 		for i := 0; i < n; i++ {
 			lo, hi := len(raw)*i/n, len(raw)*(i+1)/n
@@ -802,7 +880,10 @@ func c13GenScenario(s *verifh.Session, flow, feature string) *c13Scenario {
 			n = r.Intn(3)
 		}
 		sc.body = verifh.RandBytes(r, n, "abcdefgh\r\n{}:\"0123456789")
-		sc.bodyVia = verifh.Pick(r, []string{"bytes", "bytes", "reader", "chunked"})
+		sc.bodyVia = verifh.Pick(r, []string{"bytes", "bytes", "reader", "chunked", "multipart"})
+		if sc.bodyVia == "multipart" {
+			sc.method = "POST"
+		}
 	}
 	bodyKind := verifh.Pick(r, []string{"plain", "plain", "gzip", "gbk", "text"})
 	final := 200
@@ -810,6 +891,20 @@ func c13GenScenario(s *verifh.Session, flow, feature string) *c13Scenario {
 		final = verifh.Pick(r, []int{201, 204, 304, 404})
 	}
 	switch flow {
+	case "head":
+		// HEAD: the response announces a body length and has no body
+		sc.method, sc.body, sc.bodyVia = "HEAD", "", ""
+		var hd strings.Builder
+		fmt.Fprintf(&hd, "HTTP/1.1 %d %s\r\nX-Verif: c13\r\n", final, http.StatusText(final))
+		if feature == "many" {
+			for i := 0; i < 40+r.Intn(40); i++ {
+				fmt.Fprintf(&hd, "X-H%d: %s\r\n", i%30, verifh.RandBytes(r, r.Intn(40), "abcdef 0123"))
+			}
+		}
+		fmt.Fprintf(&hd, "Content-Type: text/plain\r\nContent-Length: %d\r\n\r\n", 1+r.Intn(100000))
+		sc.scripts[sc.path] = []c13Resp{{raw: hd.String(), head: hd.String(), pieces: 1 + r.Intn(3)}}
+		sc.order = []string{sc.path}
+		sc.class = ""
 	case "single":
 		sc.scripts[sc.path] = []c13Resp{c13GenResp(s, final, feature, bodyKind)}
 		sc.order = []string{sc.path}
@@ -918,6 +1013,8 @@ func c13RunH1(peer *c13Peer, sc *c13Scenario, cfg *c13DumpCfg, viaSet bool, time
 		rq.SetBody(func() (io.ReadCloser, error) { return io.NopCloser(strings.NewReader(body)), nil })
 	case "chunked":
 		rq.SetBodyBytes([]byte(sc.body)).EnableForceChunkedEncoding()
+	case "multipart":
+		c13Multipart(cl, rq, sc.body)
 	}
 	if cfg != nil {
 		cfg.applyRequest(rq, out.log)
@@ -937,11 +1034,21 @@ func c13RunH1(peer *c13Peer, sc *c13Scenario, cfg *c13DumpCfg, viaSet bool, time
 		out.log.events = append(out.log.events, c13Event{30, d})
 		out.log.mu.Unlock()
 	}
+	if cfg != nil {
+		cfg.readBack(out.log)
+	}
 	out.cl = cl // flushed and stopped at judge time: the write loop may still be dumping its last piece
 	cl.CloseIdleConnections()
 	peer.waitIdle()
 	out.attempts = peer.reset()
 	return out
+}
+
+// c13Multipart makes the request a multipart upload (a form field and a file part) with a fixed
+// boundary, so that the two runs of a pair send the same bytes.
+func c13Multipart(cl *Client, rq *Request, content string) {
+	cl.SetMultipartBoundaryFunc(func() string { return "c13-fixed-boundary-7d1a" })
+	rq.SetFormData(map[string]string{"note": "multipart upload"}).SetFileBytes("file", "upload.bin", []byte(content))
 }
 
 // c13Guard runs one exchange under a harness deadline: a call that never returns (a blocked
@@ -984,6 +1091,13 @@ type c13Pending struct {
 	cls              []*Client    // further clients of the run (clones)
 	outputs          map[int]bool // writer ids that are an Output() (separators allowed)
 	nontrivial       bool
+	extra            []c13Extra // further model queries of this pair
+}
+
+// c13Extra is one more model line with the check of its answer (returns "" when fine).
+type c13Extra struct {
+	line  string
+	check func(answer string) string
 }
 
 // c13Judge compares each writer's recorded writes with the model's expectedDump.
@@ -1013,15 +1127,20 @@ func c13Judge(p *c13Pending, answer string) {
 			seqs[p.seqOf[tk]] += p.tokens[tk]
 		}
 		ev := p.log.of(id)
-		if id == 30 {
-			// Response.Dump(): one flat string; parts in wire order, separators between them
+		if c13FlatWriter(id) {
+			// Response.Dump() / a dump file: one flat string; parts in wire order, separators between them
 			var parts []string
 			for _, tk := range want[id] {
 				parts = append(parts, p.tokens[tk])
 			}
 			got := strings.Join(ev, "")
-			if !c13MatchFlat(got, parts) {
-				p.why = append(p.why, fmt.Sprintf("Response.Dump() (%d bytes) is not the selected parts %q in order (separators aside); got %q", len(got), want[id], c13Clip(got, 300)))
+			// the request writer's body separator (CR LF CR LF to Output()) may land inside the
+			// response head another goroutine is dumping at that moment (HTTP/2, HTTP/3: an
+			// interim response right after END_STREAM): separators are ignored wherever they
+			// land, so fall back to comparing everything but CR / LF
+			strip := strings.NewReplacer("\r", "", "\n", "")
+			if !c13MatchFlat(got, parts) && strip.Replace(got) != strip.Replace(strings.Join(parts, "")) {
+				p.why = append(p.why, fmt.Sprintf("Response.Dump() / dump file (writer %d, %d bytes) is not the selected parts %q in order (separators aside); got %q", id, len(got), want[id], c13Clip(got, 300)))
 			}
 			continue
 		}
@@ -1045,13 +1164,14 @@ func TestVerif_C13_e2eh1(t *testing.T) {
 	cnt := c13Counter{}
 	peer := c13NewPeer(t)
 	defer peer.close()
-	flows := []string{"single", "single", "single", "retry", "redirect", "single", "truncated", "single", "retry-after-reset", "redirect", "retry", "garbage"}
+	flows := []string{"single", "single", "single", "retry", "redirect", "single", "truncated", "single", "retry-after-reset", "redirect", "retry", "garbage", "head"}
 	expectBudget := verifh.N(4, 80)
 	eachReqSeq := 0
 	features := []string{"", "", "", "", "1xx", "long", "long-status", "many", "fold", "barelf", "nearly-long"}
 	n := verifh.N(240, 6000)
 	var pend []*c13Pending
 	reqAsyncBudget := verifh.N(3, 60)
+	fileBudget := verifh.N(8, 100)
 	for c := 0; c < n; c++ {
 		flow := flows[c%len(flows)]
 		feature := verifh.Pick(r, features)
@@ -1099,20 +1219,22 @@ func TestVerif_C13_e2eh1(t *testing.T) {
 			cfg.clone = true
 			cnt.add(s, "via-clone")
 		}
-		if c%8 == 3 && sc.class == "" && !sc.retry && !sc.expect && !sc.partial {
-			// request-level dump through Client.EnableDumpEachRequest…, read back with
-			// Response.Dump(); small request bodies only (one flush after all dump calls, so
-			// the flat buffer is in wire order)
+		if c%8 == 3 && sc.class == "" && !sc.expect && !sc.partial {
+			// a request-level dump read back as ONE string: through Client.EnableDumpEachRequest… +
+			// Response.Dump() (after retries: the last attempt only), or a dump file
+			// (EnableDumpAllToFile / EnableDumpToFile); small request bodies only (one flush after
+			// all dump calls, so the flat string is in wire order)
 			eachReqSeq++
-			cfg.eachReq = 1 + eachReqSeq%7 // every setter gets its turn
-			cfg.rq = &c13DumperCfg{base: 30, flags: c13EachReq[cfg.eachReq].flags}
+			c13FlatVariant(t, &cfg, eachReqSeq, &fileBudget, func(k string) { cnt.add(s, k) })
 			if len(sc.body) > 1500 {
 				sc.body = sc.body[:1500]
 			}
-			if sc.bodyVia == "chunked" || sc.bodyVia == "reader" {
+			if sc.bodyVia == "chunked" || sc.bodyVia == "reader" || sc.bodyVia == "multipart" {
 				sc.bodyVia = "bytes"
 			}
-			cnt.add(s, "via-each-request")
+			if sc.retry {
+				cnt.add(s, "flat-dump-after-retry")
+			}
 		}
 		timeout := 5 * time.Second
 		if cfg.rq != nil && cfg.rq.async {
@@ -1137,6 +1259,9 @@ func TestVerif_C13_e2eh1(t *testing.T) {
 		cnt.add(s, fmt.Sprintf("subset=%d", subset))
 		if async && cfg.cl != nil {
 			cnt.add(s, "client-async")
+		}
+		if (cfg.cl != nil && cfg.cl.slow) || (cfg.rq != nil && cfg.rq.slow) {
+			cnt.add(s, "slow-writers")
 		}
 		if off.res.err != "-" {
 			cnt.add(s, "baseline-error")
@@ -1189,10 +1314,7 @@ func TestVerif_C13_e2eh1(t *testing.T) {
 				parts = append(parts, tk)
 			}
 		}
-		p.modelLine = "c13exp " + cfg.cl.modelArg() + " " + cfg.rq.modelArg() + " " + verifh.HexList(parts)
-		if len(parts) == 0 {
-			p.modelLine = "c13exp " + cfg.cl.modelArg() + " " + cfg.rq.modelArg() + " -"
-		}
+		p.modelLine = c13ExpLine(&cfg, sc.retry, len(on.attempts), parts)
 		pend = append(pend, p)
 		if len(pend) >= 200 { // judge in batches: the recorded dumps are large
 			c13Finish(t, s, pend)
@@ -1200,7 +1322,7 @@ func TestVerif_C13_e2eh1(t *testing.T) {
 		}
 	}
 	c13Finish(t, s, pend)
-	for _, must := range []string{"flow=retry", "flow=redirect", "flow=expect-reject", "flow=expect-continue", "flow=truncated", "flow=retry-after-reset", "flow=garbage", "baseline-error", "via-clone", "via-each-request", "feature=long", "feature=fold", "feature=many", "level=both", "client-async", "req-body-via-reader", "req-body-via-chunked", "baseline-ok"} {
+	for _, must := range []string{"flow=retry", "flow=redirect", "flow=expect-reject", "flow=expect-continue", "flow=truncated", "flow=retry-after-reset", "flow=garbage", "baseline-error", "via-clone", "via-each-request", "feature=long", "feature=fold", "feature=many", "level=both", "client-async", "req-body-via-reader", "req-body-via-chunked", "req-body-via-multipart", "flow=head", "baseline-ok", "via-dump-all-to-file", "via-dump-to-file", "flat-dump-after-retry", "slow-writers"} {
 		if cnt[must] == 0 {
 			t.Errorf("generator never reached bucket %q", must)
 		}
@@ -1208,11 +1330,54 @@ func TestVerif_C13_e2eh1(t *testing.T) {
 	s.Finish()
 }
 
+// c13FlatVariant turns the pair's request-level (or client-level) dump into one that is read back
+// as a single string: EnableDumpEachRequest… + Response.Dump() (two of three), or a dump file.
+func c13FlatVariant(t testing.TB, cfg *c13DumpCfg, seq int, fileBudget *int, count func(string)) {
+	all := [4]bool{true, true, true, true}
+	switch {
+	case seq%3 == 2 && *fileBudget > 0 && seq%2 == 0:
+		*fileBudget--
+		cfg.cl = &c13DumperCfg{base: 40, flags: all}
+		cfg.clFile = fmt.Sprintf("%s/dump-all-%d.txt", t.TempDir(), seq)
+		cfg.clone = false
+		count("via-dump-all-to-file")
+	case seq%3 == 2 && *fileBudget > 0:
+		*fileBudget--
+		cfg.rq = &c13DumperCfg{base: 41, flags: all}
+		cfg.rqFile = fmt.Sprintf("%s/dump-%d.txt", t.TempDir(), seq)
+		count("via-dump-to-file")
+	default:
+		cfg.eachReq = 1 + seq%7 // every setter gets its turn
+		cfg.rq = &c13DumperCfg{base: 30, flags: c13EachReq[cfg.eachReq].flags}
+		count("via-each-request")
+	}
+}
+
+// c13ExpLine: the model query for the expected content of every writer after the call:
+// dumpAfterRetries — the request's own buffer (writer 30) is reset before every retry attempt, a
+// redirect hop stays in the same attempt.
+func c13ExpLine(cfg *c13DumpCfg, retried bool, exchanges int, parts []string) string {
+	var sizes []int
+	if retried {
+		for i := 0; i < exchanges; i++ {
+			sizes = append(sizes, 1)
+		}
+	} else if exchanges > 0 {
+		sizes = []int{exchanges}
+	}
+	return "c13expr " + cfg.cl.modelArg() + " " + cfg.rq.modelArg() + " 30 " + verifh.IntList(sizes) + " " + verifh.HexList(parts)
+}
+
 // c13Finish asks the Lean model for every pending pair's expected dump and records verdicts.
 func c13Finish(t *testing.T, s *verifh.Session, pend []*c13Pending) {
 	lines := make([]string, len(pend))
 	for i, p := range pend {
 		lines[i] = p.modelLine
+	}
+	for _, p := range pend {
+		for _, x := range p.extra {
+			lines = append(lines, x.line)
+		}
 	}
 	answers, err := verifh.RunModel(lines)
 	if err != nil {
@@ -1229,11 +1394,18 @@ func c13Finish(t *testing.T, s *verifh.Session, pend []*c13Pending) {
 			c13StopDump(cl)
 		}
 	}
+	nx := len(pend)
 	for i, p := range pend {
 		if answers[i] == "bad-op" {
 			p.why = append(p.why, "harness: model rejected "+c13Clip(p.modelLine, 200))
 		} else {
 			c13Judge(p, answers[i])
+		}
+		for _, x := range p.extra {
+			if w := x.check(answers[nx]); w != "" {
+				p.why = append(p.why, w)
+			}
+			nx++
 		}
 		s.Observe(p.id, len(p.why) == 0, p.class, p.nontrivial, p.human, strings.Join(p.why, " ## "))
 	}
